@@ -59,6 +59,7 @@ def oracle(ops, impl):
     slots = {}      # (array, id) -> value
     noa = 0
     for o, r in zip(ops, impl):
+        r = r.split(' @')[0]
         w = o.split()
         if r in ('rejected', 'bad-op', '<no-result>'):
             continue
@@ -162,14 +163,16 @@ def run(ctx, res, cases=None):
             small = pv.ddmin(r['ops'], lambda ops: pv.case_disagrees(exe, 'pv_C41', ops, env=env))
             rs = pv.run_script(exe, 'pv_C41', [small], env=env, timeout=60)[0][0]
             res.disagreements.append({'case': small, 'impl': rs['impl'], 'model': rs['model']})
-        if any(x not in ('rejected', '-1', '0', '-1 []', 'ok') for x in r['impl']) and len(r['ops']) > 3:
+        if any(x.split(' @')[0] not in ('rejected', '-1', '0', '-1 []', 'ok') for x in r['impl']) and len(r['ops']) > 3:
             res.nontrivial(' ; '.join(r['ops']))
         if len(res.violations) + len(res.disagreements) >= 5:
             break
     res.traces_validated = len(results)
     # concurrent clause ("under concurrent use and registry growth"): free-running search, not a theorem.
     # info.c is compiled into the harness with ASan so that a racy access to a reallocated array is reported.
-    rc, out, err = pv.sh([exe, 'stress', '4', '6' if ctx.quick else '150', '200'], env=env, timeout=900)
+    # when the correspondence (values or synchronisation footprint) broke, search much harder for a failing execution
+    rounds = '120' if res.disagreements else ('6' if ctx.quick else '150')
+    rc, out, err = pv.sh([exe, 'stress', '8' if res.disagreements else '4', rounds, '200'], env=env, timeout=1500)
     _, _, st2, viols = pv.parse_transcript(out)
     for v in viols:
         res.violations.append({'key': 'concurrent:' + v[:60], 'what': v, 'case': 'C41 stress 4 threads'})
